@@ -69,6 +69,15 @@ pub fn proportion_case(c: &Case, obs: &mut Obs) -> PResult {
         }
     }
     obs.evals((n + 1) as u64);
+    // the success-ratio front-end builds the same intervals from k / n (it must imply the same count)
+    if n <= 2600 {
+        for k in 1..=n {
+            if let (Some((a, b)), Out::Ok(Interval::TwoSided(ra, rb))) = (bounds[k], call(|| proportion::ci_wilson_ratio(conf, n, k as f64 / n as f64))) {
+                ensure!(a.to_bits() == ra.to_bits() && b.to_bits() == rb.to_bits(), "C12/proportion/ratio_front_end", "ci_wilson_ratio({:?}, {n}, {k}/{n}) = [{ra:e}, {rb:e}] but ci({n}, {k}) = [{a:e}, {b:e}]: the coverage of the ratio form is that of another count", c.conf);
+            }
+        }
+        obs.evals(n as u64);
+    }
     // the mathematical Wilson construction at the same n, level and kind (own normal quantile, closed form):
     // the crate's coverage may not dip more than 0.01 below the construction's own worst dip, nor may its mean
     // over p differ from the construction's by more than 5e-4 (second, sharper documented law; see DESIGN C12)
